@@ -601,3 +601,46 @@ def many_indeterminates(inp):
     if last.startswith("WRONG"):
         return f"product in {inp['n']} indeterminates: {last}"
     return None
+
+
+# ------------------------------------------------------------------ exponent tables handed in as numpy arrays of a narrow integer type
+def gen_narrow_tables(tier, rng):
+    tops = {"uint8": 255, "int8": 127, "uint16": 65535, "int16": 32767, "uint32": ACCEPT - 1, "int32": ACCEPT - 1, "int64": ACCEPT - 1}
+    for dt, top in tops.items():
+        for _ in range(count(tier, 4, 40)):
+            D = rng.choice([1, 2])
+            vals = [top, top - 1, top - rng.randrange(0, 60), rng.randrange(0, top + 1), 0, 1]
+            rows = {tuple(rng.choice(vals) for _ in range(D)) for _ in range(rng.randint(1, 3))}
+            yield {"dtype": dt, "rows": sorted(list(r) for r in rows), "via": rng.choice(["from_attributes", "ndpoly", "from_attributes_retain"])}
+
+
+@check("C20", "codec.narrow_integer_exponent_tables", gen_narrow_tables, functions=("numpoly.ndpoly.__new__", "numpoly.polynomial_from_attributes", "numpoly.remove_redundant_coefficients"),
+       note="bounded: exponent tables given as numpy arrays of dtype uint8/int8/uint16/int16/uint32/int32/int64 with entries at and just below the "
+            "top of the type's range (adding the key offset in the caller's type would wrap): the stored exponents are the ones handed in, or an "
+            "exception")
+def narrow_tables(inp):
+    import numpoly
+    install_poison()
+    E = numpy.array(inp["rows"], dtype=inp["dtype"])
+    before = E.copy()
+    names = tuple(f"q{i}" for i in range(E.shape[1]))
+    coefs = [numpy.array(i + 1) for i in range(len(E))]
+    try:
+        if inp["via"] == "ndpoly":
+            p = numpoly.ndpoly(exponents=E, shape=(), names=names)
+            got = sorted(tuple(int(x) for x in r) for r in p.exponents)
+            want = sorted(tuple(r) for r in inp["rows"])
+        else:
+            retain = inp["via"].endswith("retain")
+            p = numpoly.polynomial_from_attributes(E, coefs, names, retain_coefficients=retain, retain_names=True)
+            got = {tuple(int(x) for x in r): int(c) for r, c in zip(p.exponents, p.coefficients)}
+            want = {tuple(r): i + 1 for i, r in enumerate(inp["rows"])}
+    except Timeout:
+        raise
+    except Exception:
+        return None
+    if not numpy.array_equal(E, before):
+        return f"the caller's exponent table (dtype {inp['dtype']}) was modified"
+    if got != want:
+        return f"exponent table {inp['rows']} of dtype {inp['dtype']} stored as {got}"
+    return None
